@@ -589,8 +589,8 @@ impl Prop for C19 {
             }
             What::Invalid => {
                 // a UDP port with nothing behind it and a TCP port that refuses
-                let closed_udp = std::net::UdpSocket::bind((ip, 0)).map(|s| s.local_addr().unwrap().port()).unwrap_or(9);
-                let refused_tcp = std::net::TcpListener::bind((ip, 0)).map(|s| s.local_addr().unwrap().port()).unwrap_or(9);
+                let closed_udp = super::common::closed_port(ip, false).unwrap_or(9);
+                let refused_tcp = super::common::closed_port(ip, true).unwrap_or(9);
                 let base = |game: &str, host: &str, port: u16| -> Vec<String> { vec!["query".into(), "-g".into(), game.into(), "-i".into(), host.into(), "-p".into(), port.to_string(), "--read-timeout".into(), "1".into(), "--connect-timeout".into(), "1".into()] };
                 let mut invocations: Vec<(String, Vec<String>)> = vec![
                     ("unknown game".into(), base("nosuchgame", "127.0.0.1", closed_udp)),
